@@ -13,6 +13,8 @@ package fsm_test
 // read back before the command (fresh) or with exactly one stale field. A fence request names the
 // phase the executor would name and, from every fenced phase, also the pre-cutover fence phases of
 // the task's kind (a request that would put a cut-over task back where it can be aborted).
+// Batch events put the failover upsert of the runtime meta and ONE migration command built against the
+// meta before it into one ApplyBatch (one meta write batch) and compare with one-per-batch application.
 // A second system (after-promotion) explores the same alphabet from the state right after the
 // accepted promotion of T2, which the first system reaches only at depth 6.
 //
@@ -159,7 +161,13 @@ type c17Stats struct {
 	createRefusedActiveBesideTerminal, createOKBesideTouchedTerminal    atomic.Int64
 	// fence requests on a task whose cutover was accepted and that stands in a post-cutover phase
 	renewAfterCutoverOK, rewindAfterCutoverRefused atomic.Int64
+	// batch events [failover upsert | one migration command built against the old meta] in ONE ApplyBatch
+	batchPairRefused    [7]atomic.Int64 // by c17BatchKinds index: the migration command answered stale_meta (batch == one per batch)
+	batchCutoverWasReady [2]atomic.Int64 // commit / promote whose proof and guard matched the meta before the failover of the same batch
 }
+
+// c17BatchKinds: the migration commands that read the runtime meta through the shared stage.
+var c17BatchKinds = []string{"setfence", "resetfence", "clearfence", "commit", "addlearner", "promote", "abort"}
 
 // c17Space is the key namespace (one hash slot of one arena) shared by an instance and the
 // successors cloned from it.
@@ -452,6 +460,18 @@ func (in *c17Inst) Events() []string {
 				}
 			}
 		}
+		// ONE ApplyBatch carrying [runtime-meta upsert (failover: leader epoch + 1) | one migration command
+		// built against the meta read BEFORE the batch], for every command kind that reads the runtime meta.
+		// Judged differentially against the same two commands applied one per batch. The successor is the
+		// state of meta:leader-epoch+1 on a correct store, so these events add transitions, not states.
+		if t.IsActive() && in.v.Meta.LeaderEpoch < 3 {
+			for _, k := range c17BatchKinds {
+				if lt := c17LT(id); (k == "commit" && !lt) || ((k == "addlearner" || k == "promote") && lt) {
+					continue
+				}
+				evs = append(evs, "batch:"+id+":"+k)
+			}
+		}
 	}
 	evs = append(evs, "gc")
 	if in.v.Meta.LeaderEpoch < 3 {
@@ -691,6 +711,10 @@ func (in *c17Inst) encode(evl string) (data []byte, id, op, variant string) {
 	case "meta":
 		next := c17SeedMeta()
 		next.ChannelEpoch, next.LeaderEpoch, next.Leader, next.Replicas, next.ISR, next.MinISR, next.LeaseUntilMS = m.ChannelEpoch, m.LeaderEpoch+1, m.Leader, m.Replicas, m.ISR, m.MinISR, m.LeaseUntilMS
+		// The command encoding fills an absent route generation with max(channel epoch, leader epoch, fence version),
+		// which the store then treats as a caller-supplied generation and ignores as stale once fence commands
+		// advanced the row's generation: the failover names the generation of the row it was computed from.
+		next.RouteGeneration = m.RouteGeneration
 		data = fsm.EncodeUpsertChannelRuntimeMetaCommand(next)
 	default:
 		panic("c17: unknown event " + evl)
@@ -704,7 +728,98 @@ func c17FenceOf(m metadb.ChannelRuntimeMeta) string {
 
 func c17Set(v []uint64) string { return fmt.Sprint(v) }
 
+// applyRaw applies the commands as ONE ApplyBatch and returns the answers joined by ","; an error is part of the answer.
+func (in *c17Inst) applyRaw(datas ...[]byte) string {
+	if in.clone {
+		in.sp.dirty = true
+	} else {
+		in.sp.snap = nil
+	}
+	cmds := make([]multiraft.Command, len(datas))
+	for i, d := range datas {
+		in.index++
+		cmds[i] = multiraft.Command{SlotID: multiraft.SlotID(in.sp.slot), HashSlot: in.sp.hs, Index: in.index, Term: 1, Data: d}
+	}
+	res, err := in.sp.sm.(multiraft.BatchStateMachine).ApplyBatch(c17Ctx, cmds)
+	if err != nil {
+		return "error(" + err.Error() + ")"
+	}
+	out := make([]string, len(res))
+	for i, r := range res {
+		out[i] = string(r)
+	}
+	return strings.Join(out, ",")
+}
+
+// applyBatchPair: the event batch:<task>:<kind>. The failover upsert and the migration command (both built
+// from the rows read back before the event) are applied one per batch, the answers and the state are
+// recorded, the namespace is put back to the state before the event through the real snapshot import, and
+// the same two commands are applied as ONE ApplyBatch. Batch and one-per-batch must agree (no hand-written
+// expectation); the state kept is the batch's.
+func (in *c17Inst) applyBatchPair(evl string) (string, error) {
+	parts := strings.SplitN(evl, ":", 3)
+	id, kind := parts[1], parts[2]
+	inner := kind + ":" + id
+	if kind == "commit" || kind == "promote" {
+		inner += ":fresh"
+	}
+	pre := in.v
+	preT := pre.Tasks[id]
+	metaCmd, _, _, _ := in.encode("meta:leader-epoch+1")
+	migCmd, _, _, _ := in.encode(inner)
+	sp := in.sp
+	snap, err := sp.arena.db.ExportHashSlotSnapshot(c17Ctx, []uint16{sp.hs})
+	if err != nil {
+		panic(fmt.Sprintf("c17 harness: export: %v", err))
+	}
+	seqRes := in.applyRaw(metaCmd) + "," + in.applyRaw(migCmd)
+	seq := in.read()
+	if err := sp.arena.db.ImportHashSlotSnapshot(c17Ctx, metadb.SlotSnapshot{HashSlots: []uint16{sp.hs}, Data: append([]byte(nil), snap.Data...)}); err != nil {
+		panic(fmt.Sprintf("c17 harness: import: %v", err))
+	}
+	if back := in.read(); !reflect.DeepEqual(back, pre) {
+		panic(fmt.Sprintf("c17 harness: snapshot import did not restore the state before %s", evl))
+	}
+	batchRes := in.applyRaw(metaCmd, migCmd)
+	post := in.read()
+	in.v = post
+	obs := "batch:" + kind + ":" + batchRes
+	if batchRes != seqRes || !reflect.DeepEqual(seq, post) {
+		what := "state"
+		if batchRes != seqRes {
+			what = "answer"
+		}
+		return obs, mc.Violatef("C17:batch-after-failover-differs-from-one-per-batch:"+kind+":"+what,
+			"%s: one ApplyBatch [failover upsert leader epoch %d -> %d | %s built against the meta before it] answered %q and left leader %d/e%d fence %s task status %d phase %d; the same two commands applied one per batch answer %q and leave leader %d/e%d fence %s task status %d phase %d",
+			evl, pre.Meta.LeaderEpoch, pre.Meta.LeaderEpoch+1, inner, batchRes, post.Meta.Leader, post.Meta.LeaderEpoch, c17FenceOf(post.Meta), post.Tasks[id].Status, post.Tasks[id].Phase,
+			seqRes, seq.Meta.Leader, seq.Meta.LeaderEpoch, c17FenceOf(seq.Meta), seq.Tasks[id].Status, seq.Tasks[id].Phase)
+	}
+	// the migration command's runtime guard and drain proof name the leader epoch before the failover: it must not take effect
+	if !reflect.DeepEqual(pre.Tasks, post.Tasks) || post.Meta.Leader != pre.Meta.Leader || c17FenceOf(post.Meta) != c17FenceOf(pre.Meta) ||
+		c17Set(post.Meta.ISR) != c17Set(pre.Meta.ISR) || c17Set(post.Meta.Replicas) != c17Set(pre.Meta.Replicas) {
+		return obs, mc.Violatef("C17:command-with-pre-failover-guard-took-effect:"+kind, "%s: %s carries the runtime guard of leader epoch %d but changed tasks / leader / fence / membership after the failover to epoch %d (answers %q)",
+			evl, inner, pre.Meta.LeaderEpoch, pre.Meta.LeaderEpoch+1, batchRes)
+	}
+	if post.Meta.LeaderEpoch != pre.Meta.LeaderEpoch+1 {
+		return obs, mc.Violatef("C17:failover-staged-before-migration-command-lost:"+kind, "%s: leader epoch %d after the batch, the failover set %d (answers %q, one per batch %q; meta before %+v, after %+v)", evl, post.Meta.LeaderEpoch, pre.Meta.LeaderEpoch+1, batchRes, seqRes, pre.Meta, post.Meta)
+	}
+	if batchRes == fsm.ApplyResultOK+","+fsm.ApplyResultStaleMeta {
+		for i, k := range c17BatchKinds {
+			if k == kind {
+				in.st.batchPairRefused[i].Add(1)
+			}
+		}
+		if (kind == "commit" || kind == "promote") && c17CutoverPhase(preT) && len(c17ProofMismatch(preT, pre.Meta)) == 0 {
+			in.st.batchCutoverWasReady[map[string]int{"commit": 0, "promote": 1}[kind]].Add(1)
+		}
+	}
+	return obs, nil
+}
+
 func (in *c17Inst) Apply(evl string, _ *mc.Env) (string, error) {
+	if strings.HasPrefix(evl, "batch:") {
+		return in.applyBatchPair(evl)
+	}
 	pre := in.v
 	data, id, op, variant := in.encode(evl)
 	res, err := in.apply(data)
@@ -1082,6 +1197,11 @@ func TestVerifC17(t *testing.T) {
 	g("create-accepted-beside-touched-terminal-task", st.createOKBesideTouchedTerminal.Load(), 1)
 	g("revive-of-terminal-task-refused-while-successor-active", st.reviveRefusedActive.Load(), 1)
 	g("learner-added", st.learnerAdded.Load(), 1)
+	for i, k := range c17BatchKinds {
+		g("batch [failover | "+k+" built before it]: answered ok,stale_meta like one per batch", st.batchPairRefused[i].Load()+st2.batchPairRefused[i].Load(), 1)
+	}
+	g("batch [failover | commit]: the commit was ready (proof and fence matched the meta before the failover)", st.batchCutoverWasReady[0].Load(), 1)
+	g("batch [failover | promote]: the promote was ready (proof and fence matched the meta before the failover)", st.batchCutoverWasReady[1].Load(), 1)
 	r.Guard("state-space-nontrivial", res.States >= 300, "states=%d", res.States)
 	g("after-promotion: abort-refused-after-cutover", st2.abortAfterCutoverRefused.Load(), 1)
 	g("after-promotion: fence-renewal-accepted-in-post-cutover-phase", st2.renewAfterCutoverOK.Load(), 1)
